@@ -41,6 +41,12 @@ type material struct {
 	ecCert  *x509.Certificate
 	edKey   ed25519.PrivateKey
 
+	// the loaded-material-shapes sub-workload: client certificates of further key algorithms / curves (signed by CA one)
+	edCert    *x509.Certificate // certifies edKey (Ed25519)
+	ec384Key  *ecdsa.PrivateKey
+	ec384Cert *x509.Certificate // certifies ec384Key (ECDSA on P-384)
+	rsa2Cert  *x509.Certificate // a SECOND RSA certificate: certifies a key that is not held (only the certificate exists)
+
 	// the material-encodings sub-workload: a client pair whose certificate was issued by an intermediate CA
 	interCert *x509.Certificate // intermediate, signed by CA one
 	chainKey  *ecdsa.PrivateKey
@@ -294,6 +300,23 @@ func mint(base string) (mt *material, err error) {
 	}
 	if _, mt.edKey, err = ed25519.GenerateKey(rand.Reader); err != nil {
 		return nil, err
+	}
+	if mt.edCert, err = mintLeaf("ed25519 client", mt.edKey.Public(), mt.ca1, mt.ca1Key, false, nil, nil); err != nil {
+		return nil, err
+	}
+	if mt.ec384Key, err = ecdsa.GenerateKey(elliptic.P384(), rand.Reader); err != nil {
+		return nil, err
+	}
+	if mt.ec384Cert, err = mintLeaf("ec p-384 client", &mt.ec384Key.PublicKey, mt.ca1, mt.ca1Key, false, nil, nil); err != nil {
+		return nil, err
+	}
+	{
+		// an RSA public key whose private half nobody holds: the modulus of the client key plus two (odd, of the same
+		// size); a certificate needs no usable key behind it to be a certificate
+		n := new(big.Int).Add(mt.rsaKey.N, big.NewInt(2))
+		if mt.rsa2Cert, err = mintLeaf("rsa client two", &rsa.PublicKey{N: n, E: mt.rsaKey.E}, mt.ca1, mt.ca1Key, false, nil, nil); err != nil {
+			return nil, err
+		}
 	}
 	// files
 	write := func(name string, data []byte) error {
